@@ -66,6 +66,7 @@ type Config struct {
 	Peers                             []proxy.PeerConfig
 	Tokens                            []string
 	PreparedCache                     proxycore.PreparedCache
+	PCT                               int   // >0: priority-based task choice with that many priority change points (PCT, Burckhardt et al. 2010)
 	MaxStreams                        int16 // tuning knob: stream ids per backend connection (0 = the shipped 2048)
 	TweakProxy                        func(*proxy.Config)
 }
@@ -116,6 +117,10 @@ type World struct {
 	start    time.Time
 	connID   int
 	lastTask *simrt.Task
+	pctPrio  []int // PCT mode: priority by task id (0 = not yet assigned)
+	pctAt    []int // PCT mode: task-step numbers at which the running task drops to the lowest priority
+	pctSteps int
+	pctRun   int // consecutive steps of the same task (fairness valve)
 	winSteps map[*simrt.Task]int
 	winCount int
 	spinTask *simrt.Task
@@ -636,7 +641,9 @@ func (w *World) StepOnce(maxIdle time.Duration) bool {
 			}
 		}
 		var t *simrt.Task
-		if w.Cfg.Sticky > 0 && len(tasks) > 1 && tasks[0] == w.lastTask {
+		if w.Cfg.PCT > 0 {
+			t = w.pctPick(tasks)
+		} else if w.Cfg.Sticky > 0 && len(tasks) > 1 && tasks[0] == w.lastTask {
 			ws := make([]int, len(tasks))
 			for i := range ws {
 				ws[i] = 1
@@ -680,6 +687,53 @@ func (w *World) StepOnce(maxIdle time.Duration) bool {
 		w.S.Idle(jump)
 	}
 	return true
+}
+
+// pctPick implements the PCT discipline for the task category: every task gets a random
+// priority when first seen, the runnable task of highest priority runs, and at d pre-drawn step
+// numbers the task that is running drops below all others. A task that ran 4000 steps in a row is
+// demoted too (PCT assumes tasks block; a polling task must not starve the task it waits for).
+func (w *World) pctPick(tasks []*simrt.Task) *simrt.Task {
+	if w.pctAt == nil {
+		for i := 0; i < w.Cfg.PCT; i++ {
+			w.pctAt = append(w.pctAt, 1+w.C.Choose("pct.at", 6000))
+		}
+	}
+	w.pctSteps++
+	best := tasks[0]
+	for _, t := range tasks {
+		for len(w.pctPrio) <= t.ID {
+			w.pctPrio = append(w.pctPrio, 0)
+		}
+		if w.pctPrio[t.ID] == 0 {
+			w.pctPrio[t.ID] = 1000 + w.C.Choose("pct.prio", 1<<16)
+		}
+		if p, b := w.pctPrio[t.ID], w.pctPrio[best.ID]; p > b || (p == b && t.ID < best.ID) {
+			best = t
+		}
+	}
+	if best == w.lastTask {
+		w.pctRun++
+	} else {
+		w.pctRun = 0
+	}
+	demote := w.pctRun >= 4000
+	for i, at := range w.pctAt {
+		if at == w.pctSteps {
+			demote = true
+			w.pctAt[i] = -1
+		}
+	}
+	if demote {
+		// below every priority handed out so far, and below earlier demotions
+		w.pctPrio[best.ID] = 999 - w.pctSteps
+		if w.pctPrio[best.ID] < 1 {
+			w.pctPrio[best.ID] = 1
+		}
+		w.pctRun = 0
+		w.Stat("sched.pct_demotions")
+	}
+	return best
 }
 
 // spinCheck is the livelock detector. Steps are counted in windows of spinWindow task steps;
